@@ -1,5 +1,8 @@
 pub mod core;
 pub mod pay;
+pub mod bx;
+pub mod bw;
+pub mod fz;
 pub mod c01;
 pub mod c02;
 pub mod c03;
